@@ -343,7 +343,19 @@ fn handle_one_request(
     if let Some(hook) = &config.pre_routing_hook {
         match (hook)(&mut request, response) {
             PreRoutingAction::Proceed => {}
-            PreRoutingAction::Drop => return Ok(response.keep_alive),
+            PreRoutingAction::Drop => {
+                // the hook answered in place of a handler: same connection handling as below
+                let client_requested_close = request.headers.is_connection_close();
+                // discard the unread body so that the next request is parsed from the right place
+                drop(
+                    BodyReader::from_request(&buf[request.buf_offset..], stream, &request.headers)
+                        .on_failure(&body_failed),
+                );
+                if client_requested_close || body_failed.load(Ordering::Relaxed) {
+                    return Ok(false);
+                }
+                return Ok(response.keep_alive);
+            }
         }
     }
 
